@@ -28,7 +28,7 @@ func init() {
 		Run:              runC11,
 	})
 	harness.Register(&harness.Property{
-		ID: "C13", Level: "exploration",
+		ID: "C13", Level: "exploration", RaceInThorough: true,
 		Rule:        "cases = every leg of seeded random walks (all 23 functions, adversarial calls included) and of the scenario library, executed three times on equal states: on the walk's own container, on a reused twin container in another goroutine after an unrelated call on the same function objects, and on a freshly built container; oracle: byte-identical Canonical(VMOutput) ‖ error presence ‖ Canonical(world); input deep-compared after every call (arguments laid out in one backing array with sentinel-filled spare capacity); hidden-state hook: every []byte field of the function objects keeps content, length, capacity and spare backing memory. Thorough also runs under the race detector. Non-trivial = committed leg; distinct = (function, side, outcome) and world digests",
 		Assumptions: commonAssumptions,
 		Batches:     tierN(8, 16),
